@@ -14,6 +14,11 @@ counting ghost.
                   reward = (>= London ? price.saturating_sub(basefee) : price) * used.saturating_sub(reservoir).
   h2_commit_fold: (= C03/h1) ordered commit applies the deferred reward once to the COMMITTED account with checked add,
                   materialises an absent account, preserves the other fields, marks it touched.
+  h3_history_resolve_validate : beneficiary/history.rs from ANY history of 3 transactions: a read resolves to the nearest snapshot
+                  (or the block-start anchor) with every later reward applied oldest-first, each addition checked on its own; fails
+                  with the first estimate met; records every contributing (writer, incarnation); validation compares the whole
+                  origin chain; publications are accepted only for a strictly newer incarnation.
+  h4_history_invalidate : invalidation acts only on the inspected incarnation.
 """
 import glob
 import os
@@ -150,6 +155,144 @@ def build_h1():
     return b
 
 
+# ------------------------------------------------------------------------------------------------ h3: beneficiary history
+HN = 3
+HW = "unsigned char"
+
+
+def hist_cfg():
+    ov = revm_types.base_overrides()
+    ov.update(revm_models.type_overrides(HW))
+    return {"type_overrides": ov, "stubs": {"<Level as PartialOrd>::le": sc.m_level_le}, "cap": HN, "noops": [r"^metrics::"], "dead_calls": sc.TRACING_DEAD,
+            "opaque_types": [r"tracing"], "consts": revm_models.consts(), "extra_src": revm_models.extra_src_roots(),
+            "loops": {"BeneficiaryHistory::scan_before": {"*": (HN + 1, "assert")}}}
+
+
+class Hist:
+    def __init__(self, H, hist):
+        self.H, self.h = H, hist
+        self.st = H.nav(hist, "entries.e.state.data")          # EntryState
+        self.val = H.nav(self.st, "value")                     # EntryValue
+        self.eff = H.nav(self.val, "Exact.0")                  # BeneficiaryEffect
+
+    def inc(self, i): return self.H.lv(self.st, "incarnation", [i])
+    def is_est(self, i): return f"({self.H.lv(self.val, 'd', [i])} == {self.H.variant(self.val, '', 'Estimate')})"
+    def kind(self, i): return self.H.lv(self.eff, "d", [i])
+    def k(self, n): return self.H.variant(self.eff, "", n)
+    def reward(self, i): return self.H.lv(self.eff, "Reward.0.0", [i])
+    def snap_some(self, i): return f"({self.H.lv(self.eff, 'Snapshot.0.d', [i])} == 1)"
+    def snap_f(self, i, f): return self.H.lv(self.eff, "Snapshot.0.Some.0." + f, [i])
+
+    def havoc(self):
+        H = self.H
+        H.freeze(self.h, "entries.len", f"((usize){HN})")
+        H.c(f"{H.lv(self.h, 'block_anchor.d')} = nondet_bool(); {H.lv(self.h, 'block_anchor.Some.0.balance')} = nondet_uchar(); {H.lv(self.h, 'block_anchor.Some.0.nonce')} = nondet_usize(); "
+            f"{H.lv(self.h, 'block_anchor.Some.0.code_hash')} = nondet_uchar(); {H.lv(self.h, 'block_anchor.Some.0.code.d')} = 0;")
+        for i in range(HN):
+            H.c(f"{H.lv(self.h, 'entries.e.state.locked', [i])} = 0; {self.inc(i)} = nondet_usize(); __CPROVER_assume({self.inc(i)} <= 3);")
+            H.c(f"{H.lv(self.val, 'd', [i])} = nondet_bool(); {self.kind(i)} = nondet_uchar(); __CPROVER_assume({self.kind(i)} < 3); {self.reward(i)} = nondet_uchar();")
+            H.c(f"{H.lv(self.eff, 'Snapshot.0.d', [i])} = nondet_bool(); {self.snap_f(i, 'balance')} = nondet_uchar(); {self.snap_f(i, 'nonce')} = nondet_usize(); "
+                f"{self.snap_f(i, 'code_hash')} = nondet_uchar(); {H.lv(self.eff, 'Snapshot.0.Some.0.code.d', [i])} = 0;")
+            # a deferred reward is never zero (BeneficiaryReward::defer asserts it)
+            H.assume(f"{self.reward(i)} != 0")
+
+
+def build_h3():
+    def b(tr):
+        H = hz.Harness(tr, "c07_h3")
+        hist = H.local("hist", "BeneficiaryHistory")
+        hx = Hist(H, hist)
+        hx.havoc()
+        H.cvar("j", "usize", shared=False)
+        H.c(f"j = nondet_usize(); __CPROVER_assume(j <= {HN});")
+        # ---- oracle: walk back from j-1 (C, unrolled) ------------------------------------------------
+        for nm, ct in (("o_err", "_Bool"), ("o_blocker", "usize"), ("o_stop", "_Bool"), ("o_norig", "usize"), ("o_some", "_Bool"), ("o_bal", HW), ("o_nonce", "u64"), ("o_ch", HW)):
+            H.cvar(nm, ct, shared=False)
+        H.cvar("o_orig_tx", "usize", dims=[HN], shared=False); H.cvar("o_orig_inc", "usize", dims=[HN], shared=False)
+        H.cvar("o_rw", HW, dims=[HN], shared=False); H.cvar("o_isrw", "_Bool", dims=[HN], shared=False)
+        H.c("o_err = 0; o_blocker = 0; o_stop = 0; o_norig = 0;")
+        H.c(f"o_some = {H.lv(hist, 'block_anchor.d')} == 1; o_bal = {H.lv(hist, 'block_anchor.Some.0.balance')}; o_nonce = {H.lv(hist, 'block_anchor.Some.0.nonce')}; o_ch = {H.lv(hist, 'block_anchor.Some.0.code_hash')};")
+        for i in range(HN):
+            H.c(f"o_isrw[{i}] = 0; o_rw[{i}] = 0;")
+        for w in reversed(range(HN)):
+            H.c(f"if ({w} < j && !o_err && !o_stop) {{")
+            H.c(f"  if ({hx.is_est(w)}) {{ o_err = 1; o_blocker = {w}; }} else {{")
+            H.c(f"    o_orig_tx[o_norig] = {w}; o_orig_inc[o_norig] = {hx.inc(w)}; o_norig++;")
+            H.c(f"    if ({hx.kind(w)} == {hx.k('Reward')}) {{ o_isrw[{w}] = 1; o_rw[{w}] = {hx.reward(w)}; }}")
+            H.c(f"    if ({hx.kind(w)} == {hx.k('Snapshot')}) {{ o_stop = 1; o_some = {hx.snap_some(w)}; o_bal = {hx.snap_f(w, 'balance')}; o_nonce = {hx.snap_f(w, 'nonce')}; o_ch = {hx.snap_f(w, 'code_hash')}; }}")
+            H.c("  } }")
+        # apply the collected rewards oldest first, each with its own checked add (absent account: default account = balance 0, nonce 0, empty code hash)
+        for w in range(HN):
+            H.c(f"if (o_isrw[{w}] && !o_err) {{ if (!o_some) {{ o_some = 1; o_bal = 0; o_nonce = 0; o_ch = 1; }} if (({HW})(o_bal + o_rw[{w}]) >= o_bal) o_bal = ({HW})(o_bal + o_rw[{w}]); }}")
+        res = H.local("res", "Result<BeneficiaryRead, usize>")
+        H.call("BeneficiaryHistory::resolve_before", [H.ref(hist), H.val("j")], res)
+        d = H.lv(res, "d")
+        ok, err = H.variant(res, "", "Ok"), H.variant(res, "", "Err")
+        H.assert_(f"({d} == {err}) == o_err", "resolve_before fails exactly when an estimate is met before a snapshot / the anchor")
+        H.assert_(f"!o_err || {H.lv(res, 'Err.0')} == o_blocker", "the error names the first (newest) estimate met walking backwards")
+        acc = H.nav(res, "Ok.0.account")
+        H.assert_(f"o_err || ({H.lv(acc, 'd')} == 1) == o_some", "existence: nearest snapshot / anchor, materialised by a (non-zero) reward")
+        H.assert_(f"o_err || !o_some || ({H.lv(acc, 'Some.0.balance')} == o_bal && {H.lv(acc, 'Some.0.nonce')} == o_nonce && {H.lv(acc, 'Some.0.code_hash')} == o_ch)",
+                  "the account is the base with every later reward applied oldest-first, each addition checked on its own (overflow keeps the balance)")
+        org = H.nav(res, "Ok.0.version.origins")
+        H.assert_(f"o_err || {H.lv(org, 'len')} == o_norig", "origins: every exact entry walked, down to and including the snapshot")
+        for k in range(HN):
+            H.assert_(f"o_err || !({k} < o_norig) || ({H.lv(org, 'e.txid', [k])} == o_orig_tx[{k}] && {H.lv(org, 'e.incarnation', [k])} == o_orig_inc[{k}])",
+                      f"origin {k} is (writer, incarnation) of the {k}-th newest contributing entry")
+        # ---- validate the read just taken: valid, dependency = newest origin ------------------------------------------
+        val = H.local("val", "BeneficiaryValidation")
+        H.c(f"if ({d} == {ok}) {{")
+        H.call("BeneficiaryHistory::validate", [H.ref(hist), H.val("j"), H.ref(res, "Ok.0.version")], val)
+        H.assert_(f"{H.lv(val, 'valid')}", "an unchanged history validates the read")
+        H.assert_(f"({H.lv(val, 'dependency.d')} == 1) == (o_norig > 0) && (o_norig == 0 || {H.lv(val, 'dependency.Some.0')} == o_orig_tx[0])", "dependency = newest contributing writer")
+        # ---- one entry gets a newer incarnation (re-execution): the old read is invalid iff that entry is in the chain ----
+        H.cvar("w2", "usize", shared=False); H.cvar("inc2", "usize", shared=False); H.cvar("in_chain", "_Bool", shared=False); H.cvar("recorded", "_Bool", shared=False)
+        H.c(f"w2 = nondet_usize(); __CPROVER_assume(w2 < {HN}); inc2 = nondet_usize(); __CPROVER_assume(inc2 <= 4);")
+        H.c("in_chain = 0;")
+        for k in range(HN):
+            H.c(f"if ({k} < o_norig && o_orig_tx[{k}] == w2) in_chain = 1;")
+        tv = H.local("tv", "TxVersion")
+        H.c(f"{H.lv(tv, 'txid')} = w2; {H.lv(tv, 'incarnation')} = inc2;")
+        H.cvar("old_inc", "usize", shared=False)
+        H.c(f"old_inc = {hx.inc('w2')};")
+        rb = H.local("rb", "bool")
+        H.call("BeneficiaryHistory::record_estimate", [H.ref(hist), H.ref(tv)], rb)
+        H.assert_(f"{H.lv(rb)} == (inc2 > old_inc)", "a publication is accepted only for a strictly newer incarnation")
+        H.assert_(f"{H.lv(rb)} ? ({hx.inc('w2')} == inc2 && {hx.is_est('w2')}) : ({hx.inc('w2')} == old_inc)", "accepted: entry replaced; refused: entry untouched")
+        val2 = H.local("val2", "BeneficiaryValidation")
+        H.call("BeneficiaryHistory::validate", [H.ref(hist), H.val("j"), H.ref(res, "Ok.0.version")], val2)
+        H.assert_(f"!({H.lv(rb)} && (in_chain || w2 < j)) || !{H.lv(val2, 'valid')} || !(w2 < j) || (!in_chain && 0)" if False else
+                  f"!({H.lv(rb)} && in_chain) || !{H.lv(val2, 'valid')}", "a read whose origin chain contains a re-published entry no longer validates")
+        H.assert_(f"!(!{H.lv(rb)}) || {H.lv(val2, 'valid')}", "a refused (stale) publication changes nothing for readers")
+        H.c("}")
+        H.cover(f"{d} == {ok} && o_norig == 3", "three contributing entries")
+        H.cover(f"{d} == {ok} && o_stop && o_norig == 2", "chain cut by a snapshot")
+        H.cover(f"{d} == {err}", "estimate met")
+        return H
+    return b
+
+
+def build_h4():
+    def b(tr):
+        H = hz.Harness(tr, "c07_h4")
+        hist = H.local("hist", "BeneficiaryHistory")
+        hx = Hist(H, hist)
+        hx.havoc()
+        tv = H.local("tv", "TxVersion")
+        H.c(f"{H.lv(tv, 'txid')} = nondet_usize(); __CPROVER_assume({H.lv(tv, 'txid')} < {HN}); {H.lv(tv, 'incarnation')} = nondet_usize(); __CPROVER_assume({H.lv(tv, 'incarnation')} <= 4);")
+        w = H.lv(tv, "txid")
+        H.cvar("old_inc", "usize", shared=False); H.cvar("was_est", "_Bool", shared=False)
+        H.c(f"old_inc = {hx.inc(w)}; was_est = {hx.is_est(w)};")
+        rb = H.local("rb", "bool")
+        H.call("BeneficiaryHistory::invalidate", [H.ref(hist), H.ref(tv)], rb)
+        H.assert_(f"{H.lv(rb)} == ({H.lv(tv, 'incarnation')} == old_inc)", "invalidate acts only on the exact incarnation that validation inspected")
+        H.assert_(f"{hx.inc(w)} == old_inc", "invalidate never changes the incarnation")
+        H.assert_(f"{hx.is_est(w)} == (was_est || {H.lv(rb)})", "the inspected exact entry becomes an estimate; a delayed invalidation of an older incarnation leaves newer data alone")
+        H.cover(f"{H.lv(rb)} && !was_est", "exact entry invalidated"); H.cover(f"!{H.lv(rb)}", "stale invalidation refused")
+        return H
+    return b
+
+
 def specs(tier):
     import c03
     out = [Spec("h1_apply_rule", build_h1(), cfg=cfg(), unwind=3, timeout=900,
@@ -159,4 +302,9 @@ def specs(tier):
         if s.name == "h1_commit_nonce":
             s.name = "h2_commit_fold"
             out.append(s)
+    out.append(Spec("h3_history_resolve_validate", build_h3(), cfg=hist_cfg(), unwind=HN + 3, timeout=900,
+                    desc="real BeneficiaryHistory::{resolve_before, validate, record_estimate} from ANY entry vector (3 transactions: estimate / unchanged / reward / "
+                         "snapshot, any incarnations, any anchor)", bounds={"n": HN, "value_bits": 8}))
+    out.append(Spec("h4_history_invalidate", build_h4(), cfg=hist_cfg(), unwind=HN + 3, timeout=600,
+                    desc="real BeneficiaryHistory::invalidate from any entry vector", bounds={"n": HN}))
     return out
